@@ -286,9 +286,9 @@ def scenario_cases(name, max_depth=2):
 
 def plan(tier):
     if tier == "quick":
-        return ([{"name": "tree%d" % i, "type": "tree", "n": 300, "steps": 25} for i in range(7)] +
-                [{"name": "value%d" % i, "type": "value", "n": 300, "steps": 14} for i in range(4)] +
-                [{"name": "scen%d" % i, "type": "scen", "n": 25, "which": SCENARIOS[i::5]} for i in range(5)])
+        return ([{"name": "tree%d" % i, "type": "tree", "n": 900, "steps": 25} for i in range(7)] +
+                [{"name": "value%d" % i, "type": "value", "n": 900, "steps": 14} for i in range(4)] +
+                [{"name": "scen%d" % i, "type": "scen", "n": 60, "which": SCENARIOS[i::5]} for i in range(5)])
     return ([{"name": "tree%d" % i, "type": "tree", "n": 4000, "steps": 50} for i in range(7)] +
             [{"name": "value%d" % i, "type": "value", "n": 4000, "steps": 24} for i in range(4)] +
             [{"name": "scen%d" % i, "type": "scen", "n": 500, "which": SCENARIOS[i::5]} for i in range(5)])
